@@ -191,6 +191,16 @@ fn run(c: &Case, out: &mut Out) {
                     format!("collected translation of {}: got {:?}", show(&content), got_s),
                 )
             });
+            // the same through every way of driving the iterators (nth / skip / step_by / count / last ...)
+            if n <= 9 || (n == 66 && *s % 8 == 0) {
+                out.stage = "iterator protocol over windows(3)/chunks(3)";
+                let proj = |c: &SeqSlice<Dna>| amino_char(STANDARD.to_amino(c));
+                let what = format!("translation of {} at offset {s}", show(&content));
+                let depth = if n <= 9 { 2 } else { 1 };
+                let t = bsv::iterproto::explore("STANDARD/windows3", &what, &|| v.windows(3), &proj, &want_w, depth, out)
+                    + bsv::iterproto::explore("STANDARD/chunks3", &what, &|| v.chunks(3), &proj, &want_c, depth, out);
+                out.count("protocol traces", t);
+            }
             out.dim("seq_len", n as i64);
             out.observe(&(2u8, got_w.ok()));
         }
